@@ -141,4 +141,7 @@ def run(ctx) -> Result:
     res.functions |= sub.functions
     res.not_decided.append("numeric correctness of the deltas beyond C08/L5 (float accumulation)")
     res.not_decided.append("that starters return complete consensus rankings over the universe (C03)")
+    if not res.violations:      # the end-to-end pass adds nothing to an established violation (and may not terminate on it)
+        from . import e2e
+        e2e.check(res, ctx.proj, "C09", ctx.thorough)
     return res
